@@ -200,7 +200,7 @@ def run(ctx):
         conc = pool.map_async(concrete_unit, [
             (n, fam.select(pool_args, 25 if ctx.quick else None, ctx.seed + 5, n), ctx.seed) for n in names],
             chunksize=1)
-        results = pool.map(symbolic_unit, [(n, thorough, 100 if ctx.quick else 600) for n in names], chunksize=1)
+        results = pool.map(symbolic_unit, [(n, thorough, 300 if ctx.quick else 1200) for n in names], chunksize=1)
         concs = conc.get()
     paths = trans = queries = models = 0
     samples = []
